@@ -141,7 +141,7 @@ PLAN["C09"] = {
     "claim": "Every ordered pair of NFAs of the finite domains through all three algorithms at API level and CLI level.",
     "technique": "bounded exhaustive enumeration of NFA pairs x algorithm selections against a reference subset construction",
     "quick": [("rel", "c09.n2l1"), ("rel", "c09.n2l2k3")],
-    "thorough": [("rel", "c09.n2l1"), ("rel", "c09.n2l2all"), ("rel", "c09.n3l1k4"), ("rel", "c09.n3l2t4")],
+    "thorough": [("rel", "c09.n2l1"), ("rel", "c09.n2l2all"), ("rel", "c09.n3l1k3"), ("rel", "c09.n3l2t3"), ("rel", "c09.trim.n3l1k4"), ("rel", "c09.trim.n3l2k3t5")],   # c09.n3l1k4, c09.n3l2t4 (270 M pairs each), c09.trim.n3l2k3, c09.trim.n3l1k5 need > 25 min: registered, not in a tier
     "require": {"all": ["expect_included", "expect_not_included", "nonemptyA_included", "class_several_start_states", "class_A_accepts_empty_word", "class_symbol_only_in_A", "class_unreachable_or_dead_state"]},
 }
 
@@ -258,7 +258,7 @@ PLAN["C08"] = {
     "claim": "All operation histories up to the stated depth over BDD automata that share transition tables, plus exhaustive single calls over the finite domains.",
     "technique": "explicit-state breadth-first search over operation histories of BDD automata sharing transition tables + bounded exhaustive enumeration of single calls",
     "quick": [("rel", "c08.single.n2s2k3"), ("rel", "c08.single.n3s3pk3"), ("rel", "c08.single.ov.n2k4"), ("rel", "c08.pairs.n2s2k2"), ("rel", "c08.pairs.ov.trim.n2k3"), ("rel", "c08.pairs.trim.n3s3pk3"), ("rel", "c08.hist.bu.d4"), ("rel", "c08.hist.td.d4"), ("rel", "c08.hist.bu.seeded1.d3"), ("rel", "c08.hist.td.seeded1.d3"), ("rel", "c08.hist.bu.seeded2.d3")],
-    "thorough": [("rel", "c08.single.n2s3k4"), ("rel", "c08.single.n3s3pk3"), ("rel", "c08.pairs.n2s2k3"), ("rel", "c08.pairs.n2s3k2"), ("rel", "c08.pairs.trim.n3s3pk3"), ("rel", "c08.pairs.trim.n3s3pk4"), ("rel", "c08.single.ov.n2k4"), ("rel", "c08.pairs.ov.n2k3"), ("rel", "c08.pairs.ov1.n2k2"), ("rel", "c08.hist.bu.d5"), ("rel", "c08.hist.td.d5"), ("rel", "c08.hist.bu.seeded1.d4"), ("rel", "c08.hist.td.seeded1.d4"), ("rel", "c08.hist.bu.seeded2.d4"), ("rel", "c08.hist.td.seeded2.d3"), ("asan", "c08.hist.bu.d3"), ("asan", "c08.hist.td.d3"), ("asan", "c08.hist.bu.seeded1.d3")],
+    "thorough": [("rel", "c08.single.n2s3k4"), ("rel", "c08.single.n3s3pk3"), ("rel", "c08.pairs.n2s2k3"), ("rel", "c08.pairs.n2s3k2"), ("rel", "c08.pairs.trim.n3s3pk3"), ("rel", "c08.single.ov.n2k4"), ("rel", "c08.pairs.ov.n2k3"), ("rel", "c08.pairs.ov1.n2k2"), ("rel", "c08.hist.bu.d5"), ("rel", "c08.hist.td.d5"), ("rel", "c08.hist.bu.seeded1.d4"), ("rel", "c08.hist.td.seeded1.d4"), ("rel", "c08.hist.bu.seeded2.d4"), ("rel", "c08.hist.td.seeded2.d3"), ("asan", "c08.hist.bu.d3"), ("asan", "c08.hist.td.d3"), ("asan", "c08.hist.bu.seeded1.d3")],
     "require": {"all": ["transitions_into_sharing_states", "intersection_nonempty", "class_useless_states", "lang_nonempty"]},
 }
 
